@@ -87,6 +87,7 @@ class World:
                     setattr(po, k + "_timeout", p[k])
             self.peers[p["name"]] = po
         self.host2peer = {p["host"]: p["name"] for p in self.cfg["peers"]}
+        self.name2host = {p["name"]: p["host"] for p in self.cfg["peers"]}
         self.apps = {}
         for a in self.cfg["apps"]:
             ao = make_app(self, a)
@@ -94,6 +95,13 @@ class World:
             n.add_application(ao, [self.peers[x] for x in a["peers"]], a["realms"] or None)
         self.conns: list[VC] = []
         self.fd2vc = {}
+        self.fd2c = {}
+        self.npc = 0                # PeerConnection objects created so far
+        _install_pc_wrapper(self.ns)
+        _CUR[0] = self
+        self.s.policy = role_policy
+        for t in self.s.threads:
+            _set_role(t)
         self.s.net.on_connect = self._on_connect
         self.connect_plan = []      # outcomes for successive dials: "ok" | "inprogress" | errno
         self._wrap_node()
@@ -104,6 +112,12 @@ class World:
         n = self.node
         w = self
         orig_recv = n._receive_message
+        orig_add = n._add_peer_connection
+
+        def add(conn, peer_socket, proto):
+            w.fd2c[peer_socket.fd] = getattr(conn, "vc_index", 0)
+            return orig_add(conn, peer_socket, proto)
+        n._add_peer_connection = add
 
         def recv(conn, msg):
             w.s.emit("dispatch", c=w.c_of(conn), m=abs_from_msg(msg))
@@ -112,15 +126,14 @@ class World:
 
     def _on_connect(self, sock, addr):
         r = self.connect_plan.pop(0) if self.connect_plan else "inprogress"
-        vc = VC(self, sock, len(self.conns) + 1, "out")
+        vc = VC(self, sock, self.fd2c.get(sock.fd, 0), "out")
         self.conns.append(vc)
         self.fd2vc[sock.fd] = vc
         vc.addr = addr
         return r
 
     def c_of(self, conn):
-        vc = self.fd2vc.get(conn.socket_fileno)
-        return vc.c if vc else 0
+        return getattr(conn, "vc_index", 0)
 
     # ------------------------------------------------------------------ env actions
     def start(self):
@@ -134,10 +147,11 @@ class World:
 
     def accept(self) -> VC:
         sock = self.s.net.inbound()
-        vc = VC(self, sock, len(self.conns) + 1, "in")
+        vc = VC(self, sock, 0, "in")
         self.conns.append(vc)
         self.fd2vc[sock.fd] = vc
         self.run()
+        vc.c = self.fd2c.get(sock.fd, 0)
         return vc
 
     def feed(self, vc: VC, frames, split=None, run=True):
@@ -183,6 +197,7 @@ class World:
 
     def spawn(self, fn, *a, name=None):
         t = simrt.Thread(target=fn, args=a, name=name)
+        _set_role(t)
         t.start()
         return t
 
@@ -194,30 +209,72 @@ class World:
     def snap(self):
         n = self.node
         P = self.ns.peer
-        out = {"t": int(self.s.now) - self.t0, "peers": {}, "conns": [], "socks": [], "apps": {}, "closed": [], "cst": {}}
+        out = {"t": int(self.s.now) - self.t0, "peers": {}, "conns": [], "socks": [], "apps": {}, "closed": [], "cst": []}
         for name, po in self.peers.items():
             c = self.c_of(po.connection) if po.connection is not None else 0
-            out["peers"][name] = {"conn": c, "st": STATE.get(po.connection.state, "?") if po.connection is not None else "",
+            out["peers"][self.name2host[name]] = {"conn": c, "st": STATE.get(po.connection.state, "?") if po.connection is not None else "",
                                   "reason": po.disconnect_reason or 0,
                                   "ldisc": (po.last_disconnect - self.t0) if po.last_disconnect else -1,
                                   "lconn": (po.last_connect - self.t0) if po.last_connect else -1}
         for ident, conn in n.connections.items():
             c = self.c_of(conn)
             out["conns"].append(c)
-            out["cst"][str(c)] = STATE.get(conn.state, "?")
+            out["cst"].append({"c": c, "st": STATE.get(conn.state, "?")})
         for ident, sock in n.peer_sockets.items():
             vc = self.fd2vc.get(sock.fd)
             out["socks"].append(vc.c if vc else 0)
         out["conns"].sort()
         out["socks"].sort()
+        out["cst"].sort(key=lambda x: x["c"])
         for name, ao in self.apps.items():
             out["apps"][name] = 1 if ao.is_ready.is_set() else 0
-        out["closed"] = [vc.c for vc in self.conns if vc.closed]
+        out["closed"] = sorted(c for c in (self.fd2c.get(sk.fd, 0) for sk in self.s.net.sockets if sk.closed and not sk.listening) if c)
         out["alive"] = sum(1 for t in self.s.threads if t.is_alive())
         return out
 
     def emit_snap(self):
         return self.s.emit("snap", s=self.snap())
+
+
+_CUR = [None]
+_PRIO = {"rd": 0, "wr": 1, "proc": 2, "app_recv": 3, "app_resp": 4, "io": 5, "stats": 6, "env": 7, "other": 8}
+_TARGET_ROLE = {"_handle_connections": "io", "_collect_stats": "stats", "_wait_for_recv_msg": "app_recv",
+                "_wait_for_resp_msg": "app_resp", "_process_recv_msg": "proc", "work_read_queue": "rd", "work_write_queue": "wr"}
+
+
+def _set_role(t):
+    if getattr(t, "role", None) is None:
+        name = getattr(getattr(t, "_target", None), "__name__", "")
+        t.role = (_TARGET_ROLE.get(name, "env" if name else "other"), t._idx)
+    return t.role
+
+
+def role_policy(sched, enabled):
+    """Fixed thread priority of the atomic grain: readers, writers (by connection), application
+    workers, then the I/O loop (mirrored by Node!StepPrio)."""
+    return min(enabled, key=lambda t: (_PRIO.get(_set_role(t)[0], 9), _set_role(t)[1]))
+
+
+def _install_pc_wrapper(ns):
+    if getattr(ns.node, "_vc_wrapped", False):
+        return
+    Base = ns.peer.PeerConnection
+
+    class TracedPeerConnection(Base):
+        def __init__(self, *a, **k):
+            w = _CUR[0]
+            n0 = len(w.s.threads)
+            super().__init__(*a, **k)
+            w.npc += 1
+            self.vc_index = w.npc
+            for t in w.s.threads[n0:]:
+                name = getattr(getattr(t, "_target", None), "__name__", "")
+                t.role = (_TARGET_ROLE.get(name, "other"), self.vc_index)
+
+    TracedPeerConnection.__name__ = "PeerConnection"
+    TracedPeerConnection.__qualname__ = "PeerConnection"
+    ns.node.PeerConnection = TracedPeerConnection
+    ns.node._vc_wrapped = True
 
 
 BASE_TIME = 1699999744.0   # low 12 bits zero: end-to-end ids start at the small random part
